@@ -97,6 +97,7 @@ typedef struct vx_thr {
 	pthread_t pth;
 	int harness_thread;
 	void (*hfn)(void *);
+	char note[24];
 } vx_thr;
 
 static vx_thr g_thr[VX_MAXT];
@@ -143,12 +144,13 @@ static void vx_dump_threads(char *buf, size_t len)
 	size_t o = strlen(buf);
 	for (int i = 0; i < g_nthr && o + 96 < len; i++) {
 		vx_thr *t = &g_thr[i];
-		o += (size_t)snprintf(buf + o, len - o, " T%d:%s%s%s", i,
+		o += (size_t)snprintf(buf + o, len - o, " T%d:%s%s%s%s%s%s", i,
 				t->state == TS_READY ? "ready" :
 				t->state == TS_BLOCKED ? "blocked/" :
 				t->state == TS_DONE ? "done" : "?",
 				t->state == TS_BLOCKED ? blk_names[t->blk] : "",
-				(t->state == TS_READY && t->spinning) ? "(spin)" : "");
+				(t->state == TS_READY && t->spinning) ? "(spin)" : "",
+				t->note[0] ? "[" : "", t->note, t->note[0] ? "]" : "");
 	}
 }
 
@@ -415,6 +417,7 @@ void vx_set_horizon(uint64_t ns) { g_horizon = ns; }
 void vx_set_time_deviations(int on) { g_timedev = on; }
 int vx_ncpu(void) { return g_ncpu; }
 int vx_self(void) { return vx_me ? vx_me->idx : -1; }
+void vx_note(const char *note) { if (vx_me) snprintf(vx_me->note, sizeof vx_me->note, "%s", note ? note : ""); }
 
 void vx_wait_until(int (*pred)(void *), void *ctx)
 {
